@@ -147,6 +147,69 @@ fn load_api() -> Result<Vec<ApiFn>> {
         .collect())
 }
 
+/// names the provider exports on wasm (`_` + the name of every `decorate_for_target!` function, plus
+/// explicit `export_name`s), read from the provider's non-test source
+fn provider_exports() -> Vec<String> {
+    let repo = std::env::var("SFV_REPO").unwrap_or_else(|_| "/repo".to_string());
+    let mut out: Vec<String> = Vec::new();
+    let mut stack = vec![std::path::PathBuf::from(format!("{}/provider/src", repo))];
+    while let Some(d) = stack.pop() {
+        let Ok(rd) = std::fs::read_dir(&d) else { continue };
+        for e in rd.flatten() {
+            let p = e.path();
+            if p.is_dir() {
+                stack.push(p);
+                continue;
+            }
+            if p.extension().and_then(|x| x.to_str()) != Some("rs") {
+                continue;
+            }
+            let Ok(text) = std::fs::read_to_string(&p) else { continue };
+            let text = text.split("#[cfg(test)]").next().unwrap_or("").to_string();
+            for (pat, prefix) in [("fn shopify_function_", "_shopify_function_"), ("export_name = \"", "")] {
+                let mut rest = text.as_str();
+                while let Some(i) = rest.find(pat) {
+                    let tail = &rest[i + pat.len()..];
+                    let name: String = tail.chars().take_while(|c| c.is_ascii_alphanumeric() || *c == '_').collect();
+                    let full = format!("{}{}", prefix, name);
+                    if !name.is_empty() && !out.contains(&full) {
+                        out.push(full);
+                    }
+                    rest = tail;
+                }
+            }
+        }
+    }
+    out
+}
+
+/// names close to real ones that are in no table of the ABI: every one must be refused
+fn near_miss_names(api: &[ApiFn], exports: &[String]) -> Vec<String> {
+    let mut known: Vec<String> = api.iter().map(|a| a.name.clone()).collect();
+    known.extend(exports.iter().cloned());
+    known.push("memory".to_string());
+    let mut out: Vec<String> = vec![String::new(), "_".into(), "foo".into(), "_foo".into(), "Memory".into(), "memory_".into(), "_memory".into()];
+    for k in known.clone() {
+        let mut c = vec![format!("_{}", k), format!("__{}", k), format!("{}_", k), k.to_uppercase()];
+        if let Some(t) = k.strip_prefix('_') {
+            c.push(t.to_string());
+        }
+        if let Some(t) = k.strip_prefix("shopify_function_") {
+            c.push(t.to_string());
+        }
+        if k.len() > 1 {
+            c.push(k[..k.len() - 1].to_string());
+            c.push(k[1..].to_string());
+        }
+        for n in c {
+            if !known.contains(&n) && !out.contains(&n) {
+                out.push(n);
+            }
+        }
+    }
+    out
+}
+
 fn sig_wat(s: &Sig) -> String {
     let mut t = String::new();
     if !s.params.is_empty() {
@@ -1063,7 +1126,10 @@ fn cmd_c07(seed: u64, n: u64, ops_path: &str, impl_path: &str) -> Result<()> {
     let mut hist: HashMap<String, u64> = HashMap::new();
     let string_fns = ["shopify_function_input_read_utf8_str", "shopify_function_input_get_obj_prop", "shopify_function_output_new_utf8_str", "shopify_function_intern_utf8_str", "shopify_function_log_new_utf8_str"];
     let mut cases = 0u64;
-    for i in 0..n {
+    let near = near_miss_names(&api, &provider_exports());
+    // after the generated cases: every near-miss name once (as a function import next to a few API imports)
+    for i in 0..n + near.len() as u64 {
+        let sweep = i >= n;
         let mut idx: Vec<usize> = (0..api.len()).collect();
         for a in (1..idx.len()).rev() {
             let j = rng.below(a as u64 + 1) as usize;
@@ -1072,7 +1138,7 @@ fn cmd_c07(seed: u64, n: u64, ops_path: &str, impl_path: &str) -> Result<()> {
         let keep = rng.range(0, api.len() as u64) as usize;
         idx.truncate(keep);
         let mut g = GuestSpec { apis: idx.clone(), foreign_first: rng.below(2) == 0, foreign_between: rng.below(2) == 0, own_stuff: true, memories: 1, module_name: API_MODULE.into(), own_state: true, foreign_memory: false, bad_sig: None, extra_import: None, dup: None, nonfunc: None, extra_nonfunc: None };
-        let variant = i % 15;
+        let variant = if sweep { 4 } else { i % 15 };
         let vname = match variant {
             0 | 1 => "valid",
             2 => {
@@ -1084,7 +1150,8 @@ fn cmd_c07(seed: u64, n: u64, ops_path: &str, impl_path: &str) -> Result<()> {
                 "two-memories"
             }
             4 => {
-                g.extra_import = Some((API_MODULE.into(), format!("shopify_function_unknown_{}", rng.below(9))));
+                let n = if sweep { near[(i - n) as usize].clone() } else if rng.below(4) == 0 { format!("shopify_function_unknown_{}", rng.below(9)) } else { near[(i as usize / 15) % near.len()].clone() };
+                g.extra_import = Some((API_MODULE.into(), n));
                 "unknown-name"
             }
             5 => {
@@ -1159,7 +1226,8 @@ fn cmd_c07(seed: u64, n: u64, ops_path: &str, impl_path: &str) -> Result<()> {
             }
             _ => {
                 // an unknown name in the API namespace that is not a function
-                g.extra_nonfunc = Some((format!("shopify_function_unknown_{}", rng.below(9)), rng.below(3) as usize));
+                let n = if rng.below(2) == 0 { format!("shopify_function_unknown_{}", rng.below(9)) } else { near[(i as usize / 15 * 7 + 3) % near.len()].clone() };
+                g.extra_nonfunc = Some((n, rng.below(3) as usize));
                 "unknown-non-function"
             }
         };
@@ -1177,6 +1245,11 @@ fn cmd_c07(seed: u64, n: u64, ops_path: &str, impl_path: &str) -> Result<()> {
                 writeln!(imp, "reject {}", classify(&format!("{:#}", e)))?;
             }
             Ok(out) => {
+                if vname == "unknown-name" || vname == "unknown-non-function" {
+                    // the property, not the model: a name that is in no table of the ABI is refused
+                    let n = g.extra_import.as_ref().map(|x| x.1.clone()).or(g.extra_nonfunc.as_ref().map(|x| x.0.clone())).unwrap_or_default();
+                    failures.push(format!("case {} ({}): accepted a module that imports the unknown name `{}` from the API namespace", i, vname, n));
+                }
                 let (before, _) = imports_of(&wasm)?;
                 let (after, own_after) = imports_of(&out)?;
                 if out == walrus::Module::from_buffer(&wasm)?.emit_wasm() && g.memories == 0 {
@@ -1325,6 +1398,17 @@ fn cmd_abi(out: &str, candidates: &[String]) -> Result<()> {
         }
     }
     cands.push("memory".to_string());
+    let mut exports_known: Vec<String> = candidates.to_vec();
+    for e in provider_exports() {
+        if !exports_known.contains(&e) {
+            exports_known.push(e);
+        }
+    }
+    for c in near_miss_names(&api, &exports_known) {
+        if !cands.contains(&c) {
+            cands.push(c);
+        }
+    }
     let mut allow: Vec<String> = Vec::new();
     for c in &cands {
         if api.iter().any(|a| &a.name == c) || renames.iter().any(|(_, n)| n == c) {
